@@ -214,7 +214,7 @@ def check_formatters(R, rule):
     # server match arms come from format_method_path; SERVICE_NAME from format_service_name
     sgm = focus_body(tb, 'tonic_build::server::generate_methods', name='format_method_path')
     c = sgm.calls(name='format_method_path')
-    R.check(len(c) == 1 and [show(strip_refs(forigin(tb, sgm, a)))[:4] for a in c[0][1]['args'][:1]] == ['arg1'] and strip_refs(forigin(tb, sgm, c[0][1]['args'][2]))[0] == 'arg', rule, 'server-arms-use-formatter', site(sgm), 'server::generate_methods calls format_method_path(service, method, emit_package): %d site(s)' % len(c))
+    R.check(len(c) == 1 and [show(strip_refs(forigin(tb, sgm, a)))[:4] for a in c[0][1]['args'][:1]] == ['arg1'] and loc_of(strip_refs(mirlib.simplify(forigin(tb, sgm, c[0][1]['args'][2])))) is not None, rule, 'server-arms-use-formatter', site(sgm), 'server::generate_methods calls format_method_path(service, method, emit_package): %d site(s)' % len(c))
     sgi = tb.body('tonic_build::server::generate_internal')
     c = sgi.calls(name='format_service_name')
     gn = sgi.calls(name='generate_named')
